@@ -1520,7 +1520,8 @@ def ispatterntype(t: tp.Any) -> compat.TypeIs[re.Pattern]:
         >>> ispatterntype(r"^[a-z]+$")
         False
     """
-    return _safe_issubclass(t, re.Pattern)
+    # (`re.Pattern[str]` is an alias of the class, not a class.)
+    return _safe_issubclass(tp.get_origin(t) or t, re.Pattern)
 
 
 @compat.cache
